@@ -317,6 +317,39 @@ def static_obligations(E, con):
     return out
 
 
+def bounded_refutation(E, con, fi, obs, bound=2):
+    """An undecided obligation is usually one that is FALSE but whose counter-model the solver cannot build through the
+    quantifiers.  Re-generate the function's obligations in refutation mode (every sequence has <= `bound` items, the
+    specification's quantifiers are expanded over that range) and look for a counter-model of the same-named
+    obligation there.  `sat` under this extra restriction is a model of the unrestricted obligation too, so it counts
+    as a refutation; `unsat`/`unknown` there proves nothing and leaves the obligation undecided."""
+    wanted = {ob.full_name: ob for ob in obs if ob.status == "undecided"}
+    E.bounded = bound
+    try:
+        res2 = FunctionResult(con.key)
+        obs2 = explore(E, con, fi, res2)
+    except Exception:  # noqa
+        obs2 = []
+    finally:
+        E.bounded = None
+    by_name = {}
+    for o2 in obs2:
+        by_name.setdefault(o2.name, []).append(o2)
+    for full, ob in wanted.items():
+        for o2 in by_name.get(ob.name, []):
+            s = z3.Solver()
+            s.set("timeout", Z3_TIMEOUT_MS)
+            s.add(*o2.pc)
+            s.add(z3.Not(o2.goal))
+            if s.check() == z3.sat:
+                ob.status = "refuted"
+                ob.model = s.model()
+                ob.pc, ob.goal = o2.pc, o2.goal
+                ob.detail += " | refuted in bounded mode (sequences of at most %d items, quantifiers expanded): sat" % bound
+                ob.meta["bounded_refutation"] = bound
+                break
+
+
 def witness_cover(E, con):
     """vacuity guard for preconditions the solver cannot satisfy by itself (quantified representation invariants):
     the sidecar names real objects, built by the real constructors, and the precondition is evaluated on them"""
@@ -373,6 +406,8 @@ def verify_contract(E, con, thorough=False):
         res.requires_sat = "error: %s" % ex
     for ob in obs:
         discharge(ob, thorough)
+    if any(ob.status == "undecided" for ob in obs):
+        bounded_refutation(E, con, fi, obs)
     obs.extend(static_obligations(E, con))
     res.seconds = time.time() - t0
     res.inlined = sorted(E.inlined)
